@@ -258,19 +258,24 @@ def judge(chk: Check, cases: T.List[T.Dict[str, T.Any]], atoms: T.List[T.List[in
             raise MachineryError(f'TraceTemplate judged {res.distinct // 2} of {len(part)} cases')
         chk.add_tlc(f'TraceTemplate[{label}]', res, model=False)
         got = res.json_lines()
-        if got:
-            ids = {v[0].get('id') for v in got if isinstance(v, list) and v and isinstance(v[0], dict)}
-            sub = [c for c in part if c['id'] in ids]
-            got1 = _tlc_part(payload(sub), 1).json_lines() if sub else []
-            if len(got1) < len(got):
-                got1 = _tlc_part(payload(part), 1).json_lines()
-            for vs in got1:
-                bad += vs
+        # every verdict is one println of one string; should a line ever be torn, judge the part again single-threaded
+        printed = sum(1 for ln in res.stdout.splitlines() if ln.startswith('"'))
+        if printed != len(got) or any(not isinstance(v, list) for v in got):
+            got = _tlc_part(payload(part), 1).json_lines()
+        for vs in got:
+            bad += vs
     chk.traces += len(cases)
     dbg(f'judge {label} {len(cases)} cases {time.time() - t0:.1f}s rejected={len(bad)}')
     for v in bad:
         c = cases[v['id']]
         d = describe(c, atoms, confs)
+        if v['clause'] == 'Deviation':
+            # TLC named the known deviations that reproduce the observation: one finding per deviation
+            for name in sorted(v['got']):
+                chk.violation('Deviation:' + name, {'verdict': {'clause': 'Deviation', 'deviations': sorted(v['got']),
+                                                                'expected': txt(v['expected'])}, 'case': d,
+                                                    'via': c.get('via', 'do_conf_file')})
+            continue
         chk.violation(signature(v, d), {'verdict': {'clause': v['clause'],
                                                     'expected': txt(v['expected']) if v['clause'] in ('Text', 'Crashed', 'RejectedButMustAccept') else v['expected'],
                                                     'got': v['got']},
@@ -302,14 +307,16 @@ def _account(chk: Check, cases: T.List[T.Dict[str, T.Any]], atoms: T.List[T.List
 # ---------------------------------------------------------------------------
 
 INVARIANTS = ['ScanEqualsSegments', 'OtherBytesUntouched', 'NoRescan', 'MissingAreUndefinedNamesOfTheTemplate',
-              'HeaderHasExactlyKeysSorted', 'PinnedCasesHold']
+              'DeviationsOffIsRuleBook']
+ONCE = ['HeaderHasExactlyKeysSorted', 'PinnedCasesHold']     # do not depend on the template: checked in one small run
 
 
-def mc_cfg(atomsel: T.Iterable[int], confsel: T.Iterable[int], fmtsel: T.Iterable[int], maxlen: int) -> str:
+def mc_cfg(atomsel: T.Iterable[int], confsel: T.Iterable[int], fmtsel: T.Iterable[int], maxlen: int,
+           invariants: T.Iterable[str] = tuple(INVARIANTS)) -> str:
     return ('SPECIFICATION Spec\nCONSTANTS\n AtomSel = {%s}\n ConfSel = {%s}\n FmtSel = {%s}\n MaxLen = %d\n%s'
             'CHECK_DEADLOCK FALSE\nPOSTCONDITION EmitSpace\n' % (
                 ', '.join(map(str, atomsel)), ', '.join(map(str, confsel)), ', '.join(map(str, fmtsel)), maxlen,
-                ''.join('INVARIANT %s\n' % i for i in INVARIANTS)))
+                ''.join('INVARIANT %s\n' % i for i in invariants)))
 
 
 def families(quick: bool) -> T.List[T.Tuple[str, T.List[int], T.List[int], T.List[int], int, int]]:
@@ -317,12 +324,15 @@ def families(quick: bool) -> T.List[T.Tuple[str, T.List[int], T.List[int], T.Lis
     return [
         # backslash @ a - space LF : the inline scanner of the meson format
         ('meson-inline', [1, 2, 3, 6, 5, 11], [1, 2, 3, 4, 5], [1], 5 if quick else 6, 5 if quick else 6),
+        # whole placeholders next to each other, escapes, CR LF
+        ('meson-frag', [21, 24, 1, 2, 3, 5, 12], [1, 2, 3, 4, 5], [1], 4, 4 if quick else 5),
         # @ a $ { } backslash LF : the cmake scanners
         ('cmake-inline', [2, 3, 7, 8, 9, 1, 11], [1, 2, 5, 8], [2, 3], 4 if quick else 5, 4 if quick else 5),
-        # #mesondefine lines: keyword, blanks, names A B a C, placeholders, line terminators
-        ('meson-define', [15, 5, 14, 19, 20, 3, 26, 21, 11, 12, 13], [1, 5, 6, 7, 8], [1], 4, 4 if quick else 5),
+        ('cmake-frag', [21, 22, 24, 25, 3, 2, 5, 11], [1, 2, 5, 8], [2, 3], 4, 4 if quick else 5),
+        # #mesondefine lines: keyword, blanks, names A B a, a placeholder, line terminators
+        ('meson-define', [15, 5, 14, 19, 20, 3, 21, 11, 12], [1, 5, 6, 7, 8], [1], 4, 4 if quick else 5),
         # #cmakedefine / #cmakedefine01 / "# cmakedefine" lines
-        ('cmake-define', [16, 17, 18, 5, 19, 20, 26, 22, 21, 23, 11, 12], [1, 6, 8], [2, 3], 4, 4 if quick else 5),
+        ('cmake-define', [16, 17, 18, 5, 19, 20, 22, 23, 11, 12], [6, 10] if quick else [1, 6, 8, 10], [2, 3], 4, 4 if quick else 5),
         # both kinds of placeholders and keywords mixed: format errors
         ('mixed', [15, 16, 5, 19, 21, 22, 10, 11], [6, 8], [1, 2, 3], 3, 3 if quick else 4),
     ]
@@ -337,6 +347,10 @@ def main(chk: Check) -> None:
                 'fragments with random configurations, and the header dump. Non-trivial = the real output differs from the '
                 'template, the template is rejected, or names are reported missing (distinct template x configuration x format).')
     n_rand = 6000 if quick else 150000
+    res = run_tlc(SPECS / 'template', 'Template_MC', cfg_text=mc_cfg([3], range(1, 11), [1], 0, ONCE), timeout=3000,
+                  allow_violation=False)
+    chk.add_tlc('Template_MC[pinned cases, header]', res)
+    dbg(f'model pinned {res.distinct} states {res.wall:.1f}s')
     with ProcessPoolExecutor(max_workers=common.NCPU) as ex:
         space: T.Dict[str, T.Any] = {}
         for label, atomsel, confsel, fmtsel, nmodel, nimpl in families(quick):
@@ -382,8 +396,8 @@ def main(chk: Check) -> None:
             judge(chk, cases, [], confs, 'B')
     chk.extra['random_templates'] = n_rand
     # (A') a sample through configure_file() with the real command line
-    from . import c14_cli
-    c14_cli.run(chk, space, judge, _account)
+    from . import template_cli
+    template_cli.run(chk, space, judge, _account)
     chk.exhaustive = True
     chk.assumptions += [
         'define lines are generated with the keyword standing alone (followed by a blank); "#mesondefineFOO BAR" and a '
